@@ -41,8 +41,21 @@ def script_program(rng, ncos=None, wrap_prob=0.25):
         nops = rng.randint(1, 4)
         for j in range(nops):
             c = rng.random()
-            if c < 0.35:
+            if c < 0.22:
                 ops.append(p.emit([p.str(tag + "-y"), p.call(_co(p, "yield"), vals())]))
+            elif c < 0.35:
+                # yield results in a fixed-count context: more or fewer values than the resume passes
+                nv = rng.randint(1, 3)
+                names = ["y%d_%d" % (j, q) for q in range(nv)]
+                form = rng.random()
+                if form < 0.5:
+                    ops.append(p.local(names, [p.call(_co(p, "yield"), vals())]))
+                elif form < 0.75:
+                    ops.append(p.local(names, []))
+                    ops.append(p.assign([p.id(x) for x in names], [p.call(_co(p, "yield"), vals())]))
+                else:
+                    ops.append(p.local(names, [p.num(0)] * (nv - 1) + [p.paren(p.call(_co(p, "yield"), vals()))]))
+                ops.append(p.emit([p.str(tag + "-yf")] + [p.id(x) for x in names]))
             elif c < 0.5:
                 i = rng.randrange(n)
                 ops.append(p.emit([p.str(tag + "-r%d" % (i + 1)), resume_expr(i, vals())]))
@@ -83,9 +96,16 @@ def script_program(rng, ncos=None, wrap_prob=0.25):
     # main script
     for _ in range(rng.randint(2, 6)):
         c = rng.random()
-        if c < 0.75:
+        if c < 0.55:
             i = rng.randrange(n)
             ss.append(p.emit([p.str("m-r%d" % (i + 1)), resume_expr(i, vals())]))
+        elif c < 0.75:
+            i = rng.randrange(n)
+            nv = rng.randint(1, 4)
+            names = ["m%d_%d" % (counter[0], q) for q in range(nv)]
+            counter[0] += 1
+            ss.append(p.local(names, [resume_expr(i, vals(3))]))       # resume results in a fixed-count context
+            ss.append(p.emit([p.str("m-rf%d" % (i + 1))] + [p.id(x) for x in names]))
         else:
             ss.append(p.callstat(p.call(p.id("st"), [])))
     ss.append(p.callstat(p.call(p.id("st"), [])))
